@@ -1155,6 +1155,74 @@ def generate_wiring(mods):
     return "\n".join(out) + "\nend Gen.Wiring\n", []
 
 
+def generate_console(listener_mod, console_mod):
+    """the console reporting chain: statement trees of `ConsoleFullOutputListener` and `FunctionConsoleFullOutput`, and for every method of
+    `ConsoleOutputer` the sequence of its `print` statements as (format string, positional arguments of `.format`, keyword arguments)"""
+    out = ["-- GENERATED by harness/src2lean.py from the SOURCE TEXT of iOpt/method/listener.py and iOpt/output_system/console/console_output.py\n"
+           "-- under /repo; do not edit.\n"
+           "import IOptGen.ProcessSrc\n"
+           "/-!\nThe console reporting chain: `ConsoleFullOutputListener` (which callback prints what), `FunctionConsoleFullOutput` (which fields of the\n"
+           "solution / of the new trials are handed to the printer, in which argument position) as statement trees (`Gen.ProcSrc.Stmt`), and the\n"
+           "`print` statements of every method of `ConsoleOutputer` in order: format string, positional `.format` arguments, keyword arguments.\n-/\n"
+           "namespace Gen.Console\nopen Gen.ProcSrc\n\n"
+           "/-- one `print(...)` statement: `fmt.format(args…, kw…)`; for a `print` of another shape `fmt = \"\"` and `args = [the printed expression]` -/\n"
+           "structure PrintStmt where\n  fmt : String\n  args : List String\n  kwargs : List (String × String)\n  endArg : String := \"\"\n  deriving Repr, DecidableEq\n"]
+    for cls in (listener_mod.ConsoleFullOutputListener, console_mod.FunctionConsoleFullOutput):
+        cname = cls.__name__
+        for attr, fn in cls.__dict__.items():
+            if not callable(fn):
+                continue
+            try:
+                fa = func_ast(fn)
+            except (OSError, TypeError):
+                continue
+            if not isinstance(fa, ast.FunctionDef):
+                continue
+            fa = _inline_private_helpers(cls, fa, {a_ for a_ in cls.__dict__ if not a_.startswith("_") or a_.startswith("__")})
+            nm = cname[0].lower() + cname[1:] + "_" + attr.strip("_")
+            params = [a.arg for a in fa.args.args]
+            defaults = [ast.unparse(d) for d in fa.args.defaults]
+            out.append(f"/-- parameters of `{cname}.{attr}` (defaults of the trailing ones: {defaults}) -/\ndef {nm}Params : List String := "
+                       + "[" + ", ".join(_lean_str(x) for x in params) + "]\n")
+            out.append(f"/-- body of `{cname}.{attr}` -/\ndef {nm} : List Stmt :=\n  " + _stmts_to_lean(_nodoc(fa.body), 2) + "\n")
+    cls = console_mod.ConsoleOutputer
+    for attr, fn in cls.__dict__.items():
+        if not callable(fn) or attr.startswith("__"):
+            continue
+        fa = func_ast(fn)
+        params = [a.arg for a in fa.args.args]
+        out.append(f"/-- parameters of `ConsoleOutputer.{attr}` -/\ndef {attr}Params : List String := "
+                   + "[" + ", ".join(_lean_str(x) for x in params) + "]\n")
+        # locals assigned before the prints (e.g. dim = len(point)), then the prints in order; anything else is listed under `other`
+        assigns, prints, other = [], [], []
+        for st in _nodoc(fa.body):
+            if isinstance(st, ast.Assign) and len(st.targets) == 1 and isinstance(st.targets[0], ast.Name):
+                assigns.append((st.targets[0].id, ast.unparse(st.value)))
+            elif isinstance(st, ast.Expr) and isinstance(st.value, ast.Call) and isinstance(st.value.func, ast.Name) and st.value.func.id == "print":
+                c = st.value
+                end = next((ast.unparse(k.value) for k in c.keywords if k.arg == "end"), "")
+                if len(c.args) == 1 and isinstance(c.args[0], ast.Call) and isinstance(c.args[0].func, ast.Attribute) \
+                        and c.args[0].func.attr == "format" and isinstance(c.args[0].func.value, ast.Constant):
+                    f_ = c.args[0]
+                    prints.append((f_.func.value.value, [ast.unparse(a) for a in f_.args],
+                                   [(k.arg, ast.unparse(k.value)) for k in f_.keywords], end))
+                else:
+                    prints.append(("", [ast.unparse(a) for a in c.args], [], end))
+            elif isinstance(st, ast.Pass):
+                continue
+            else:
+                other.append(ast.unparse(st))
+        out.append(f"/-- locals of `ConsoleOutputer.{attr}` assigned at top level (name, source expression), in order -/\ndef {attr}Locals : List (String × String) := ["
+                   + ", ".join(f"({_lean_str(a)}, {_lean_str(b)})" for a, b in assigns) + "]\n")
+        out.append(f"/-- the `print` statements of `ConsoleOutputer.{attr}` in order -/\ndef {attr}Prints : List PrintStmt := [\n  "
+                   + ",\n  ".join("{ fmt := %s, args := [%s], kwargs := [%s], endArg := %s }" % (
+                       _lean_str(f), ", ".join(_lean_str(a) for a in args), ", ".join(f"({_lean_str(k)}, {_lean_str(v)})" for k, v in kws), _lean_str(e))
+                       for f, args, kws, e in prints) + "]\n")
+        out.append(f"/-- top-level statements of `ConsoleOutputer.{attr}` that are neither an assignment to a local nor a `print` (source text) -/\n"
+                   f"def {attr}Other : List String := [" + ", ".join(_lean_str(o) for o in other) + "]\n")
+    return "\n".join(out) + "\nend Gen.Console\n", []
+
+
 def wiring_classes():
     from iOpt.solver import Solver
     from iOpt.method.process import Process
@@ -1474,6 +1542,10 @@ if __name__ == "__main__":
     if "--proc" in sys.argv:
         from iOpt.method.process import Process
         text, errors = generate_process(Process)
+    if "--console" in sys.argv:
+        import iOpt.method.listener as lm
+        import iOpt.output_system.console.console_output as com
+        text, errors = generate_console(lm, com)
     if "--wiring" in sys.argv:
         text, errors = generate_wiring(wiring_classes())
     if "--prob" in sys.argv:
